@@ -41,7 +41,7 @@ def newline_guarded(fn, block):
     return False
 
 
-def run_units(c, facts, rule_prefix='C16', scope=None, must=None):
+def run_units(c, facts, rule_prefix='C16', scope=None, must=None, floors=True):
     R1 = c.rule(rule_prefix + '.R1', 'UNITS: bytes, UTF-16 units, code points and lines never mix')
     R2 = c.rule(rule_prefix + '.R2', 'ACCUMULATE: accumulators grow only by the matching per-character length')
     nacc = 0
@@ -95,8 +95,12 @@ def run_units(c, facts, rule_prefix='C16', scope=None, must=None):
                         c.ok(R2, inst)
                     else:
                         c.skip(R2, '%s:%s' % (f2.qname, name), 'accumulator without an inferred unit')
-    c.floor(R2, 'accumulators analysed', nacc, 7)
-    c.floor(R1, 'functions analysed', len([q for q in (scope or SCOPE) if facts.fn(q)]), 12)
+    if floors:
+        c.floor(R2, 'accumulators analysed', nacc, 7)
+        c.floor(R1, 'functions analysed', len([q for q in (scope or SCOPE) if facts.fn(q)]), 12)
+    else:
+        c.floor(R2, 'accumulators analysed', nacc, 1)
+        c.floor(R1, 'functions analysed', len([q for q in (scope or SCOPE) if facts.fn(q)]), len(must or []))
 
 
 def r3_clamp(c, facts):
